@@ -422,7 +422,7 @@ func fullState(parts ...*clusterpb.Part) []byte {
 
 func TestHostileReceivePath(t *testing.T) {
 	run := vf.Cur()
-	sub := run.Sub("hostile-receive-path", "one real peer (no network traffic needed) with real silence and notification-log states; its delegate's NotifyMsg and MergeRemoteState are fed, in random order: arbitrary bytes, valid envelopes with unknown state keys, known keys with malformed/truncated payloads, duplicates, full-state messages whose parts are ordered [unknown key, valid part], and valid updates in between, and further states are registered (AddState) while that traffic flows; no panic, no call that never returns; after every delivery the understood states equal the reference (last-writer-wins over the VALID deliveries so far, nothing corrupted), and every valid update delivered in its own message - or after an unknown-key part of a full-state message - is merged; non-trivial = every case; distinct by (seed)", 50)
+	sub := run.Sub("hostile-receive-path", "one real peer (no network traffic needed) with real silence and notification-log states; its delegate's NotifyMsg and MergeRemoteState are fed, in random order: arbitrary bytes, valid envelopes with unknown state keys, known keys with malformed/truncated payloads and with well-formed records that lack a required part (log entry without receiver, group key, timestamp or expiry; record without its entry/silence), duplicates, full-state messages whose parts are ordered [unknown key, valid part], and valid updates in between, and further states are registered (AddState) while that traffic flows; no panic, no call that never returns; after every delivery the understood states equal the reference (last-writer-wins over the VALID deliveries so far, nothing corrupted), and every valid update delivered in its own message - or after an unknown-key part of a full-state message - is merged; non-trivial = every case; distinct by (seed)", 50)
 	n := run.N(300, 30000)
 	vf.Parallel(t, n, 8, func(t *testing.T, i int) {
 		if run.Violated() {
@@ -527,6 +527,39 @@ func TestHostileReceivePath(t *testing.T) {
 				cut := sb[:r.Intn(len(sb))]
 				ok = deliver(false, part("sil", cut), "known key, truncated payload")
 			case 3:
+				if r.Intn(2) == 0 {
+					// well-formed protobuf records with a required part missing, alone or after a valid record, as an
+					// update and inside a full state
+					gk := fmt.Sprintf("{}:{partial=\"%d\"}", k)
+					ts, exp := timestamppb.New(now.Add(time.Duration(k)*time.Millisecond)), timestamppb.New(now.Add(time.Hour))
+					var rec proto.Message
+					what := ""
+					switch r.Intn(6) {
+					case 0:
+						rec, what = &nfpb.MeshEntry{ExpiresAt: exp}, "log record without an entry"
+					case 1:
+						rec, what = &nfpb.MeshEntry{Entry: &nfpb.Entry{GroupKey: []byte(gk), Timestamp: ts, FiringAlerts: []uint64{1}}, ExpiresAt: exp}, "log entry without a receiver"
+					case 2:
+						rec, what = &nfpb.MeshEntry{Entry: &nfpb.Entry{Receiver: rc, Timestamp: ts, FiringAlerts: []uint64{1}}, ExpiresAt: exp}, "log entry without a group key"
+					case 3:
+						rec, what = &nfpb.MeshEntry{Entry: &nfpb.Entry{Receiver: rc, GroupKey: []byte(gk), FiringAlerts: []uint64{1}}, ExpiresAt: exp}, "log entry without a timestamp"
+					case 4:
+						rec, what = &nfpb.MeshEntry{Entry: &nfpb.Entry{Receiver: rc, GroupKey: []byte(gk), Timestamp: ts, FiringAlerts: []uint64{1}}}, "log record without an expiry"
+					default:
+						rec, what = &pb.MeshSilence{ExpiresAt: exp}, "silence record without a silence"
+					}
+					key := "nfl"
+					if _, isSil := rec.(*pb.MeshSilence); isSil {
+						key = "sil"
+					}
+					payload := silhEncodeAny(rec)
+					if r.Intn(2) == 0 {
+						ok = deliver(false, part(key, payload), "known key, "+what)
+					} else {
+						ok = deliver(true, fullState(&clusterpb.Part{Key: key, Data: payload}), "full state with a "+what)
+					}
+					break
+				}
 				b := make([]byte, 5+r.Intn(40))
 				r.Read(b)
 				ok = deliver(false, part(gen.Pick(r, []string{"sil", "nfl"}), b), "known key, random payload")
